@@ -101,10 +101,20 @@ func applyOps(max uint64, ops []lruOp, n int, classes []*roaring.Bitmap) (*meter
 		if op.Op == "put" {
 			b := classes[op.Cl-1].Clone()
 			ids[b] = i + 1
-			m.c.Put(uint64(op.K), b)
+			if p := vx.Safely(func() { m.c.Put(uint64(op.K), b) }); p != nil {
+				o.Bm = -99 // a panic of the cache: matches no expected observation
+				obs[i] = o
+				return m, ids, obs[:i+1]
+			}
 			o.Bm = i + 1
 		} else {
-			b, ok := m.c.Get(uint64(op.K))
+			var b *roaring.Bitmap
+			var ok bool
+			if p := vx.Safely(func() { b, ok = m.c.Get(uint64(op.K)) }); p != nil {
+				o.Bm = -99
+				obs[i] = o
+				return m, ids, obs[:i+1]
+			}
 			o.Hit = ok
 			if ok {
 				id, known := ids[b]
@@ -174,9 +184,15 @@ func replayLRU(args []string) error {
 			if o.Op == "get" && (o.Hit != want.Hit || (o.Hit && o.Bm != want.Bm)) {
 				bad = "get"
 			}
+			if o.Bm == -99 {
+				bad = "panic"
+			}
 			// resident set after this prefix
-			m2, _, _ := applyOps(b.Max, b.Ops, i+1, classes)
+			m2, _, obs2 := applyOps(b.Max, b.Ops, i+1, classes)
 			got := sweep(m2, keys)
+			if len(obs2) > 0 && obs2[len(obs2)-1].Bm == -99 {
+				bad = "panic"
+			}
 			if fmt.Sprint(got) != fmt.Sprint(append([]int{}, want.Res...)) {
 				bad = "resident"
 			}
